@@ -298,6 +298,17 @@ class FGen:
                 if lhs in sc["nums"] or lhs in sc["bools"] or lhs in sc["arrs"]:
                     continue
                 c = rng.choice(["i", "j"])
+                if rng.random() < 0.3 and not any("knest" in sc[k] for k in ("nums", "bools", "arrs", "uts")):
+                    # a loop NEST whose body is the last use of a temporary made just before it
+                    # ('knest <- rhs(t, u); acc <- acc + dt*knest [i=0..2, j=0..2]')
+                    c2 = "j" if c == "i" else "i"
+                    ops.append(["call", ["knest"], "<func>rhs", [["var", "<t>"], ["var", u]], {}, 0])
+                    base = ["var", lhs] if sc["uts"].get(lhs) == tid else ["var", u]
+                    ops.append(["assign", lhs, None, ["+", base, ["*", ["var", "<dt>"], ["var", "knest"]]],
+                                [[c, ["num", 0], ["num", rng.choice([2, 3])]],
+                                 [c2, ["num", 0], ["num", rng.choice([1, 2, 3])]]], 0])
+                    sc["uts"][lhs] = tid
+                    continue
                 tt = ["+", ["var", "<t>"], ["*", ["num", rng.choice([0.25, 0.5])], ["var", c]]]
                 q = rng.random()
                 inner = (["call", "<func>rhs", [["var", "<t>"], ["var", u]], {}] if q < 0.5 else
